@@ -67,6 +67,41 @@ func HarnessC05Predicate() {
 	verif.Assert(p2.String() == txt, "C05/predicate/reprint")
 }
 
+// C05 (b'): printing is a function of the value alone: several values are
+// printed one after the other (nodes, predicates anchored at instants that may
+// coincide in different zones, literals) and each text must still parse back to
+// its own value, offset included - whatever was printed before.
+func HarnessC05Sequence() {
+	n := 2 + verif.Choice("n", verif.Param("N", 1))
+	var ps []*predicate.Predicate
+	for i := 0; i < n; i++ {
+		id := verif.String("id", 1)
+		verif.Assume(verif.And(verif.And(id[0] > ' ', id[0] < 0x7f), verif.And(id[0] != '"', id[0] != '\\')))
+		ps = append(ps, symPredicateFromID(id, 2*verif.Choice("kind", 2)))
+	}
+	var txts []string
+	for _, p := range ps {
+		txts = append(txts, p.String())
+	}
+	verif.Reach("printed")
+	for i, p := range ps {
+		verif.Assert(p.String() == txts[i], "C05/sequence/same-text-on-every-call")
+		p2, err := predicate.Parse(txts[i])
+		verif.Assert(err == nil, "C05/sequence/parses-back")
+		if err != nil {
+			continue
+		}
+		verif.Assert(p2.ID() == p.ID() && p2.Type() == p.Type(), "C05/sequence/equal")
+		if p.Type() == predicate.Temporal && p2.Type() == predicate.Temporal {
+			a, _ := p.TimeAnchor()
+			b, _ := p2.TimeAnchor()
+			_, oa := a.Zone()
+			_, ob := b.Zone()
+			verif.Assert(a.Equal(*b) && oa == ob, "C05/sequence/same-instant-and-offset")
+		}
+	}
+}
+
 // C05 (c): literals.
 func HarnessC05Literal() {
 	kind := []int{0, 2, 3, 4}[verif.Choice("kind", 4)] // int64: HarnessC05Int64
